@@ -65,6 +65,7 @@ EXPECT_PROBES = ["side_ctl", "side_sw", "fault_len", "fault_type",
                  "len_zero", "len_short", "len_long", "victim_slow_reader",
                  "victim_had_unsent_replies", "late_sentinels_sent",
                  "victim_before_hello", "close_callback_raised",
+                 "victim_reset_after",
                  "victim_mid_handshake_features",
                  "victim_mid_handshake_barrier",
                  "victim_mid_handshake_barrier_x",
@@ -147,7 +148,12 @@ def gen_plan(seed, tier):
                                and Rng(mix(seed, "2nd")).chance(0.15)),
          "mid_handshake": (r.pick(["features", "barrier", "barrier_x",
                                    "barrier_x"])
-                           if side == "ctl" and r.chance(0.2) else None)}
+                           if side == "ctl" and r.chance(0.2) else None),
+         # controller side: the peer does not close after its damaged
+         # stream, it resets (crash, SO_LINGER 0): the controller's socket
+         # is then dead in every respect, shutdown() included
+         "reset_after": (side == "ctl"
+                         and Rng(mix(seed, "rst")).chance(0.25))}
   if max(len(m) for m in msgs) > 20000 and cfg["recv_mode"] == "dribble":
     cfg["recv_mode"] = "choose"
   return {"prop": PROP, "seed": seed, "cfg": cfg,
@@ -353,7 +359,11 @@ def _drive_ctl(sim, plan, known, hit):
     stream_all = stream
   sib_round()
   victim.send(stream_all)
-  if eof:
+  if cfg.get("reset_after"):
+    sim.probes["victim_reset_after"] += 1
+    victim.reset()
+    eof = True
+  elif eof:
     victim.close()
   sib_round()
   _drain(sim, "controller read")
